@@ -230,6 +230,18 @@ func (h *fmtHooks) OnCall(c *engine.Ctx, instr ssa.Instruction, callee *ssa.Func
 		}
 		c.It.Record(ev)
 	}
+	// a deferred function that recovers, called while the frame unwinds:
+	// it must see the classification with which the frame was entered.
+	if _, isDefer := instr.(*ssa.Defer); isDefer && c.Frame.Panicking && callsRecover(callee) && len(args) > 0 {
+		if p, ok := args[0].(engine.Ptr); ok && objType(c.Heap, p.Obj) == tPP {
+			if fp, ok2 := c.Frame.Reg(c.Fn.Params[0]).(engine.Ptr); ok2 && fp.Obj == p.Obj {
+				now := ppState(c.Heap, p.Obj)
+				entry := ppState(c.Frame.Entry, p.Obj)
+				c.It.Record(engine.Event{Kind: "recoverer", Instr: instr, Fn: caller, Detail: map[string]string{
+					"now": now, "entry": entry, "same": fmt.Sprint(now == entry), "callee": shortFn(name)}})
+			}
+		}
+	}
 	switch name {
 	case "(*" + pkgRfmt + ".pp).badVerb", "(*" + pkgRfmt + ".pp).missingArg", "(*" + pkgRfmt + ".pp).badArgNum", "(*" + pkgRfmt + ".pp).free":
 		if p, ok := args[0].(engine.Ptr); ok {
@@ -255,6 +267,21 @@ func (h *fmtHooks) OnCall(c *engine.Ctx, instr ssa.Instruction, callee *ssa.Func
 
 func (h *fmtHooks) OnDynamic(c *engine.Ctx, instr ssa.Instruction, args []engine.AbsVal, userCode bool) {
 	d := map[string]string{"user": fmt.Sprint(userCode), "defers": strings.Join(c.Frame.DeferredCallees(), ",")}
+	if ci, ok := instr.(ssa.CallInstruction); ok {
+		cc := ci.Common()
+		if cc.IsInvoke() {
+			d["target"] = "method " + cc.Method.Name() + " of " + shortFn(cc.Value.Type().String())
+			d["iface"] = cc.Value.Type().String()
+		} else {
+			d["target"] = "func value"
+			if u, ok := cc.Value.(*ssa.UnOp); ok {
+				if g, ok := u.X.(*ssa.Global); ok {
+					d["target"] = "func value " + shortFn(g.String())
+					d["global"] = g.String()
+				}
+			}
+		}
+	}
 	// configuration of the printer involved, if any
 	for _, a := range args {
 		if iv, ok := a.(engine.IfaceV); ok {
@@ -424,4 +451,18 @@ func (a *AFmt) SummariesOf(name string) []*engine.Summary {
 		out = append(out, a.It.Summaries[k])
 	}
 	return out
+}
+
+// callsRecover reports whether fn calls the recover builtin directly.
+func callsRecover(fn *ssa.Function) bool {
+	for _, b := range fn.Blocks {
+		for _, ins := range b.Instrs {
+			if call, ok := ins.(*ssa.Call); ok {
+				if bi, ok := call.Common().Value.(*ssa.Builtin); ok && bi.Name() == "recover" {
+					return true
+				}
+			}
+		}
+	}
+	return false
 }
